@@ -125,3 +125,9 @@ fn nl_append_8_8() {
     kani::cover!(got == 1 && ct == pt, "must: extended by text only");
     kani::cover!(got == 0 && la > 0, "must: whitespace-only extension");
 }
+
+#[kani::proof]
+#[kani::unwind(18)]
+fn nl_len_le_16() {
+    run::<16>();
+}
